@@ -1,7 +1,7 @@
 SPECIFICATION Spec
 CONSTANTS
-  DtNames = {"ST", "IN"}
-  Edits = 2
+  DtNames = {"IN", "NS", "NE", "DN"}
+  Edits = 1
   MaxTail = 2
   Wide = FALSE
   Deep = TRUE
